@@ -948,12 +948,14 @@ class BackendZ3(Backend):
 
                 # Construct the extra constraint so we don't get the same result anymore
                 if i + 1 != n:
+                    # a str value has to be turned into a literal the same way StringV is (backslashes kept literal)
+                    rv = [self.StringV(claripy.StringV(v)) if isinstance(v, str) else v for v in r]
                     if len(exprs) == 1:
-                        solver.add(exprs[0] != r[0])
+                        solver.add(exprs[0] != rv[0])
                     else:
                         solver.add(
                             self._op_raw_Not(
-                                self._op_raw_And(*[(ex == ex_v) for ex, ex_v in zip(exprs, r, strict=False)])
+                                self._op_raw_And(*[(ex == ex_v) for ex, ex_v in zip(exprs, rv, strict=False)])
                             )
                         )
                     model = None
